@@ -83,6 +83,10 @@ def run(pid, tier, repo, build, seed):
             okp = bool(ids) and min(ids) >= 1 and max(ids) <= 8 and tp['match_limit'] > 0
             add(okp, {'obligation': 'ground/proto-table-facts', 'ids': ids, 'match_limit': tp['match_limit']}, 'ground/proto-table-facts',
                 'axiom_proto_table: ids of PROTO_SMACK are within 1..8 and BASE_STATE is a resting state')
+            hids = sorted(set(i for m in th['matches'][:th['state_count']] for i in m['ids']))
+            okh = bool(hids) and min(hids) >= 0 and max(hids) <= 4 and th['match_limit'] > 1 and all(m['count'] <= 1 for m in th['matches'][:th['state_count']])
+            add(okh, {'obligation': 'ground/http-table-facts', 'ids': hids, 'match_limit': th['match_limit']}, 'ground/http-table-facts',
+                'axiom_http_table: ids of HTTP_SMACK within 0..4, one id per match row, BASE and UNANCHORED are resting states')
             if pid == 'C10':
                 sigs = signature_set(repo)
                 st, disc = product_explore(tp, sigs)
